@@ -8,8 +8,13 @@ VERIF = os.path.dirname(os.path.abspath(__file__))
 PIDS = [c["property_id"] for c in json.load(open(os.path.join(VERIF, "MANIFEST.json")))["checks"]]
 dirs = sys.argv[1:] or [os.path.join(VERIF, "benign")]
 total = alarms = 0
-for dd in dirs:
-    for diff in sorted(glob.glob(os.path.join(dd, "*.diff"))):
+from concurrent.futures import ThreadPoolExecutor
+ONLY = os.environ.get("BENIGN_ONLY", "").split(",") if os.environ.get("BENIGN_ONLY") else None
+
+
+def one(dd, diff):
+    global total, alarms
+    if True:
         name = os.path.relpath(diff, os.path.dirname(dd.rstrip("/")))
         sc = selftest.scratch_copy()
         try:
@@ -19,7 +24,7 @@ for dd in dirs:
                 r = subprocess.run(["patch", "-p1", "-d", repo, "-i", diff], stdout=subprocess.PIPE, stderr=subprocess.STDOUT, text=True)
             if r.returncode != 0:
                 print("%-28s SKIPPED (does not apply)" % name)
-                continue
+                return
             total += 1
             fired = []
             for pid in PIDS:
@@ -35,4 +40,7 @@ for dd in dirs:
             sys.stdout.flush()
         finally:
             shutil.rmtree(sc, ignore_errors=True)
+jobs = [(dd, diff) for dd in dirs for diff in sorted(glob.glob(os.path.join(dd, "*.diff"))) if not ONLY or any(o in diff for o in ONLY)]
+with ThreadPoolExecutor(max_workers=int(os.environ.get("BENIGN_JOBS", "5"))) as ex:
+    list(ex.map(lambda a: one(*a), jobs))
 print("%d refactorings, %d with at least one false alarm" % (total, alarms))
